@@ -7,12 +7,16 @@ package p9
 import (
 	"errors"
 	"fmt"
+	"io"
 	"io/fs"
 	"math/rand"
+	"net"
 	"os"
+	"strings"
 	"sync"
 	"syscall"
 	"testing"
+	"time"
 
 	"github.com/hugelgupf/p9/linux"
 )
@@ -58,6 +62,9 @@ type vh03World struct {
 	log    []vh03Call
 	next   int
 	err    error  // answer of the next recorded call (nil: success)
+	errFor string // if set, only calls of this method fail
+	xval   []byte
+	xnames []string
 	ans    string // canonical rendering of the success values answered
 	record bool
 }
@@ -87,6 +94,9 @@ func (f *vh03File) rec(m string, args ...vh03Val) error {
 		return nil
 	}
 	f.w.log = append(f.w.log, vh03Call{M: m, On: f.h, Args: args})
+	if f.w.errFor != "" && f.w.errFor != m {
+		return nil
+	}
 	return f.w.err
 }
 
@@ -255,6 +265,20 @@ func (f *vh03File) Readlink() (string, error) {
 	return t, nil
 }
 
+func (f *vh03File) GetXattr(name string) ([]byte, error) {
+	if err := f.rec("GetXattr", vh03S(name)); err != nil {
+		return nil, err
+	}
+	return append([]byte(nil), f.w.xval...), nil
+}
+func (f *vh03File) ListXattrs() ([]string, error) {
+	if err := f.rec("ListXattrs"); err != nil {
+		return nil, err
+	}
+	return append([]string(nil), f.w.xnames...), nil
+}
+func (f *vh03File) Close() error { return f.rec("Close") }
+
 // ---- error answers ----
 
 type vh03Err struct {
@@ -332,7 +356,7 @@ func vh03U64(r *rand.Rand) uint64 {
 }
 
 var vh03Ops = []string{"Open", "Create", "Mkdir", "Symlink", "Mknod", "Link", "RenameAt", "UnlinkAt", "Rename", "Remove", "Readlink",
-	"GetAttr", "SetAttr", "StatFS", "FSync", "Lock", "Readdir", "Walk", "SetXattr", "RemoveXattr"}
+	"GetAttr", "SetAttr", "StatFS", "FSync", "Lock", "Readdir", "Walk", "SetXattr", "RemoveXattr", "Close"}
 
 func vh03One(t *testing.T, o *vhOut, id int, r *rand.Rand, op string, version int, fail bool) {
 	w := &vh03World{}
@@ -485,6 +509,8 @@ func vh03One(t *testing.T, o *vhOut, id int, r *rand.Rand, op string, version in
 		}
 		params["names"] = vh03Names(names)
 		_, _, cerr = recv.Walk(names)
+	case "Close":
+		cerr = recv.Close()
 	case "SetXattr":
 		cerr = recv.SetXattr(name, []byte("v"), 0)
 	case "RemoveXattr":
@@ -538,6 +564,200 @@ func vh03One(t *testing.T, o *vhOut, id int, r *rand.Rand, op string, version in
 	o.Emit(rec)
 }
 
+// vh03Drop makes the client's Read return io.EOF once the dropAt-th Tread has been written completely.
+type vh03Drop struct {
+	net.Conn
+	mu      sync.Mutex
+	treads  int
+	dropAt  int
+	pending bool
+	armed   bool
+}
+
+func (c *vh03Drop) Write(b []byte) (int, error) {
+	c.mu.Lock()
+	arm := false
+	if len(b) == 7 && msgType(b[4]) == msgTread {
+		c.treads++
+		if c.treads == c.dropAt {
+			c.pending = true
+		}
+	} else if c.pending {
+		c.pending = false
+		arm = true
+	}
+	c.mu.Unlock()
+	n, err := c.Conn.Write(b)
+	if arm {
+		c.mu.Lock()
+		c.armed = true
+		c.mu.Unlock()
+	}
+	return n, err
+}
+
+func (c *vh03Drop) Read(b []byte) (int, error) {
+	c.mu.Lock()
+	a := c.armed
+	c.mu.Unlock()
+	if a {
+		return 0, io.EOF
+	}
+	return c.Conn.Read(b)
+}
+
+// vh03Xattr: GetXattr / ListXattrs through real client + real server; optionally the connection drops with EOF
+// while the value is being read.
+func vh03Xattr(t *testing.T, o *vhOut, id int, r *rand.Rand, list bool, msize uint32, size int, drop int, fail bool) {
+	w := &vh03World{}
+	root := w.newFile(ModeDirectory|0o755, "", nil)
+	var value []byte
+	if list {
+		for len(value) < size {
+			n := vh03Name(r)
+			b := []byte(n)
+			for i := range b {
+				if b[i] == 0 {
+					b[i] = 1
+				}
+			}
+			if len(value)+len(b)+1 > size {
+				b = b[:size-len(value)-1]
+				if len(b) == 0 {
+					break
+				}
+			}
+			w.xnames = append(w.xnames, string(b))
+			value = append(append(value, b...), 0)
+		}
+		value = []byte(strings.Join(w.xnames, "\x00") + "\x00") // what the server serves for a listing
+	} else {
+		value = make([]byte, size)
+		for i := range value {
+			value[i] = byte(r.Intn(256))
+		}
+		w.xval = value
+	}
+	cc, sc := net.Pipe()
+	srv := NewServer(vhclAttacher{func() (File, error) { return root, nil }})
+	sdone := make(chan struct{})
+	go func() { srv.Handle(sc, sc); close(sdone) }()
+	dc := &vh03Drop{Conn: cc, dropAt: drop}
+	cl, err := NewClient(dc, WithMessageSize(msize))
+	if err != nil {
+		t.Fatalf("C03 xattr client: %v", err)
+	}
+	croot, err := cl.Attach("")
+	if err != nil {
+		t.Fatalf("C03 xattr attach: %v", err)
+	}
+	var ans vh03Err
+	w.mu.Lock()
+	w.record = true
+	if fail {
+		ans = vh03GenErr(r, 2)
+		w.err = ans.Err
+	}
+	w.mu.Unlock()
+	name := vh03Name(r)
+	var got []byte
+	var gotNames []string
+	var cerr error
+	ok := vhclWithin(10*time.Second, func() {
+		if list {
+			gotNames, cerr = croot.ListXattrs()
+			if cerr == nil {
+				got = []byte(strings.Join(gotNames, "\x00") + "\x00")
+			}
+		} else {
+			got, cerr = croot.GetXattr(name)
+		}
+	})
+	w.mu.Lock()
+	w.record = false
+	log := append([]vh03Call(nil), w.log...)
+	w.mu.Unlock()
+	cc.Close()
+	<-sdone
+	var calls []map[string]interface{}
+	for _, c := range log {
+		if c.M == "Close" {
+			continue
+		}
+		calls = append(calls, map[string]interface{}{"m": c.M, "on": map[string]interface{}{"fid": uint64(croot.(*clientFile).fid)}, "args": c.Args})
+	}
+	dc.mu.Lock()
+	if !dc.armed {
+		drop = 0 // the value needed fewer reads than that: nothing was dropped
+	}
+	dc.mu.Unlock()
+	rec := map[string]interface{}{"kind": "xattr", "id": id, "list": list, "cs": cl.payloadSize, "value": vhBytes(value), "drop": drop, "fail": fail,
+		"name": vhBytes([]byte(name)), "fid": uint64(croot.(*clientFile).fid), "calls": calls, "returned": ok, "got": vhBytes(got), "got_nil": got == nil && gotNames == nil, "err": vhclClassify(cerr)}
+	if fail {
+		rec["answer"] = ans.J
+	}
+	o.Emit(rec)
+}
+
+// vh03Wga: WalkGetAttr at every version (below 2: Walk + GetAttr, Close when GetAttr failed).
+func vh03Wga(t *testing.T, o *vhOut, id int, r *rand.Rand, version int, ncomp int, getattrFails bool) {
+	w := &vh03World{}
+	root := w.newFile(ModeDirectory|0o755, "", nil)
+	pr, err := vhclPair(vhclAttacher{func() (File, error) { return root, nil }}, 8192, version)
+	if err != nil {
+		t.Fatalf("C03 wga pair: %v", err)
+	}
+	defer pr.Close()
+	croot, err := pr.c.Attach("")
+	if err != nil {
+		t.Fatalf("C03 wga attach: %v", err)
+	}
+	_, d, err := croot.Walk([]string{"d1"})
+	if err != nil {
+		t.Fatalf("C03 wga walk: %v", err)
+	}
+	recv := d.(*clientFile)
+	var names []string
+	for i := 0; i < ncomp; i++ {
+		names = append(names, "d"+vh03Name(r))
+	}
+	w.mu.Lock()
+	w.record = true
+	if getattrFails {
+		w.err = linux.Errno(5)
+		w.errFor = "GetAttr"
+	}
+	w.mu.Unlock()
+	_, nf, _, _, cerr := recv.WalkGetAttr(names)
+	w.mu.Lock()
+	w.record = false
+	log := append([]vh03Call(nil), w.log...)
+	w.mu.Unlock()
+	var calls []map[string]interface{}
+	target := -1
+	for _, c := range log {
+		if c.M == "GetAttr" {
+			target = c.On
+		}
+	}
+	for i, c := range log {
+		if c.M == "Close" && c.On != target {
+			continue // intermediate Files of the server's walk being released (C05)
+		}
+		on := map[string]interface{}{"walked": c.On}
+		if c.On == 1 && i == 0 {
+			on = map[string]interface{}{"fid": uint64(recv.fid)}
+		}
+		calls = append(calls, map[string]interface{}{"m": c.M, "on": on, "args": c.Args})
+	}
+	newfid := uint64(0)
+	if nf != nil {
+		newfid = uint64(nf.(*clientFile).fid)
+	}
+	o.Emit(map[string]interface{}{"kind": "wga", "id": id, "version": version, "names": vh03Names(names), "fid": uint64(recv.fid), "newfid": newfid,
+		"getattr_fails": getattrFails, "calls": calls, "err": vhclClassify(cerr)})
+}
+
 func TestVerifC03(t *testing.T) {
 	o := vhOpen(t)
 	defer o.Close()
@@ -555,6 +775,37 @@ func TestVerifC03(t *testing.T) {
 				vh03One(t, o, id, r, op, v, true)
 				id++
 			}
+		}
+	}
+	// composed methods: GetXattr / ListXattrs (xattrwalk + chunked read + clunk), with the connection dropping
+	// with EOF at every chunk; WalkGetAttr at every version
+	for _, msize := range []uint32{160, 8192} {
+		cs := int(roundDown(msize-msgDotLRegistry.largestFixedSize, 512))
+		sizes := []int{0, 1, cs - 1, cs, cs + 1, 2*cs + 1, 3 * cs}
+		if cs > 100 {
+			sizes = []int{0, 1, 300, cs}
+		}
+		for _, size := range sizes {
+			if size < 0 {
+				continue
+			}
+			chunks := (size + cs - 1) / cs
+			for drop := 0; drop <= chunks; drop++ {
+				for _, list := range []bool{false, true} {
+					vh03Xattr(t, o, id, r, list, msize, size, drop, false)
+					id++
+				}
+			}
+			vh03Xattr(t, o, id, r, false, msize, size, 0, true)
+			id++
+		}
+	}
+	for v := 0; v <= int(highestSupportedVersion); v++ {
+		for ncomp := 0; ncomp <= 2; ncomp++ {
+			vh03Wga(t, o, id, r, v, ncomp, false)
+			id++
+			vh03Wga(t, o, id, r, v, ncomp, true)
+			id++
 		}
 	}
 }
